@@ -378,6 +378,34 @@ func (c cmt) where() string {
 // falsifications by trigger, never to decide them).
 func tokenRoles(f *ast.FileNode) map[ast.Token]string {
 	roles := map[ast.Token]string{}
+	// separators of message literals whose trailing comment the formatter is known to drop: the value in
+	// front of them is a composite scalar (-1, -inf, "a" "b") or already carries a trailing comment.  After
+	// any other value (a plain scalar, a {...} / <...> / [...] literal) the comment is kept on the unchanged tree.
+	knownSep := map[ast.Token]bool{}
+	var findSeps func(n ast.Node)
+	findSeps = func(n ast.Node) {
+		if ml, ok := n.(*ast.MessageLiteralNode); ok {
+			for i, sep := range ml.Seps {
+				if sep == nil || i >= len(ml.Elements) {
+					continue
+				}
+				val := ml.Elements[i].Val
+				switch val.(type) {
+				case *ast.NegativeIntLiteralNode, *ast.SignedFloatLiteralNode, *ast.CompoundStringLiteralNode:
+					knownSep[sep.Token()] = true
+				}
+				if f.NodeInfo(val).TrailingComments().Len() > 0 {
+					knownSep[sep.Token()] = true
+				}
+			}
+		}
+		if cn, ok := n.(ast.CompositeNode); ok {
+			for _, ch := range cn.Children() {
+				findSeps(ch)
+			}
+		}
+	}
+	findSeps(f)
 	short := func(n ast.Node) string {
 		s := fmt.Sprintf("%T", n)
 		s = strings.TrimPrefix(s, "*ast.")
@@ -403,6 +431,9 @@ func tokenRoles(f *ast.FileNode) map[ast.Token]string {
 			kind = string(t.Rune)
 			if (t.Rune == ',' || t.Rune == ';') && parent == "MessageLiteral" {
 				kind = "sep"
+				if !knownSep[t.Token()] {
+					kind = "sep-after-plain-value"
+				}
 			}
 			if t.Rune == 0 {
 				kind = "EOF"
@@ -747,7 +778,7 @@ func canonicalKey(v *Verdict, n1 *ast.FileNode) {
 		k = "output-does-not-parse:line-comment-with-block-end"
 	case strings.HasPrefix(k, "comment-duplicated:") && has("OptionName>FieldReference.") && has(":trailing") && has("compact/"):
 		k = "comment-duplicated:compact-option-name"
-	case strings.HasPrefix(k, "comment-lost:") && has("MessageLiteral.sep:leading"):
+	case strings.HasPrefix(k, "comment-lost:") && (has("MessageLiteral.sep:leading") || has("MessageLiteral.sep-after-plain-value:leading")):
 		k = "comment-lost:message-literal-separator-leading"
 	case strings.HasPrefix(k, "comment-lost:") && has("MessageLiteral.sep:trailing"):
 		k = "comment-lost:message-literal-separator-trailing"
